@@ -69,8 +69,14 @@ class C19(CheckBase):
         a = runtool.run([tool] + args, cwd, stdin=stdin, executable=ctx.tool("dbg", tool))
         b = runtool.run([tool] + args, cwd, stdin=stdin, executable=ctx.tool("ndebug", tool))
         v.evaluations += 2
-        if a.timed_out or b.timed_out:
-            v.skipped = "timeout"
+        if a.timed_out and b.timed_out:
+            v.skipped = "both-builds-time-out"          # C07's business
+            return a, b
+        if a.timed_out != b.timed_out:
+            which, exe = ("NDEBUG", ctx.tool("ndebug", tool)) if b.timed_out else ("default", ctx.tool("dbg", tool))
+            if runtool.confirm_timeout([tool] + args, cwd, stdin=stdin, executable=exe):
+                v.fail("C19/one-build-hangs", "%s: the %s build does not terminate within 10 s, the other build exits %s"
+                       % (label, which, a.status if b.timed_out else b.status), {"ndebug": b.brief(), "default": a.brief()})
             return a, b
         if a.assertion_failed():
             v.classes.append("assertion-stopped-default-build")
